@@ -40,7 +40,8 @@ SCALARS = {
     "build_host": ("RPMTAG_BUILDHOST", ID + "StringTag{self.build_host<Some>.0}"),
     "changelog_names": ("RPMTAG_CHANGELOGNAME", ID + "StringArray{self.changelog_names}"),
     "changelog_entries": ("RPMTAG_CHANGELOGTEXT", ID + "StringArray{self.changelog_entries}"),
-    "changelog_times": ("RPMTAG_CHANGELOGTIME", ID + "Int32{std::iter::Iterator::collect(std::iter::Iterator::map(self.changelog_times, <rpm::timestamp::Timestamp as std::convert::Into<u32>>::into))}"),
+    "changelog_times": ("RPMTAG_CHANGELOGTIME", ID + "Int32{std::iter::Iterator::collect(std::iter::Iterator::map(self.changelog_times, <rpm::timestamp::Timestamp as std::convert::Into<u32>>::into))}",
+                        ID + "Int32{std::iter::Iterator::collect(std::iter::Iterator::map(self.changelog_times, <u32 as std::convert::From<rpm::timestamp::Timestamp>>::from))}"),
 }
 DEP_FIELDS = {"provides": "PROVIDE", "requires": "REQUIRE", "conflicts": "CONFLICT", "obsoletes": "OBSOLETE", "recommends": "RECOMMEND", "suggests": "SUGGEST",
               "enhances": "ENHANCE", "supplements": "SUPPLEMENT"}
@@ -73,9 +74,10 @@ def run(f, fixture, rep, cfg, tier):
     ent_terms = [(tag, tb.term(c.args[2])) for (tag, _d, c) in ents]
 
     # ---- R2 scalar fields ----------------------------------------------------------------------
-    for field, (tag, want) in SCALARS.items():
+    for field, spec_ in SCALARS.items():
+        tag, want = spec_[0], spec_[1]
         got = [d for d, _c in by_tag.get(tag, [])]
-        rep.check(got == [want], "R2", "%s|%s" % (field, tag), "%s -> %s as %s" % (field, tag, want[len(ID):][:60]),
+        rep.check(got == [want] or (len(got) == 1 and got[0] in spec_[2:]), "R2", "%s|%s" % (field, tag), "%s -> %s as %s" % (field, tag, want[len(ID):][:60]),
                   "%s is written as %s (expected the builder's `%s` as %s)" % (tag, [g[len(ID):][:140] for g in got], field, want[len(ID):]), (by_tag.get(tag) or [(None, pd)])[0][1].loc() if by_tag.get(tag) else pd.span)
         variant = want[len(ID):].split("{", 1)[0]
         ty = TAG_TYPE.get(tag)
@@ -99,6 +101,12 @@ def run(f, fixture, rep, cfg, tier):
     ap = f.one("types::Scriptlet::apply")
     ta = TermBuilder(ap)
     rows = [(render(ta.term(c.args[0])), render(ta.term(c.args[2]))) for c in ap.calls() if re.search(r"IndexEntry::<.*>::new$", c.decl)]
+    # `self.flags.map(|flags| IndexEntry::new(..))` + `records.extend(entry)`: the row is built in the closure, its value parameter
+    # bound to the Option's payload
+    for cb_ in f.closures_of(ap):
+        tcb_ = TermBuilder(cb_, closure_env=True)
+        rows += [(render(tcb_.term(c.args[0])), render(tcb_.term(c.args[2]))) for c in cb_.calls() if re.search(r"IndexEntry::<.*>::new$", c.decl)]
+    rows.sort()
     want_rows = [("tags.0", ID + "StringTag{self.script}"),
                  ("tags.1", ID + "Int32{vec![constants::_::<impl constants::ScriptletFlags>::bits(self.flags<Some>.0)]}"),
                  ("tags.2", ID + "StringArray{self.program<Some>.0}")]
@@ -174,6 +182,25 @@ def run(f, fixture, rep, cfg, tier):
         rep.check(len(ins) == 1 and "options.destination" in render(tad.term(ins[0].args[1])), "R2", "add_data|cpio-path", "the archive name derives from the destination",
                   "files key is %s" % [render(tad.term(c.args[1]))[:120] for c in ins], ad.span)
 
+    # inherited mode: with_file takes the source file's mode verbatim when no mode was given
+    wfb = f.one("PackageBuilder::with_file")
+    twf = TermBuilder(wfb)
+    mode_writes = []
+    for l in range(len(wfb.locals)):
+        for (_bb, _idx, kind, payload, lhs_proj) in wfb.defs(l):
+            if kind == "assign" and lhs_proj and lhs_proj[-1].get("n") == "mode" and wfb.locals[l]["name"] == "options":
+                mode_writes.append(render(twf.term(payload["rv"]["o"])) if payload["rv"]["r"] == "use" else "<%s>" % payload["rv"]["r"])
+    if rep.anchor(len(mode_writes) >= 1, "R2", "with_file writes options.mode when permissions are inherited"):
+        for mw in mode_writes:
+            okm = re.fullmatch(r"(std::convert::(Into::into|From::from)\()?i32\(rpm::builder::file_mode\(std::fs::File::open\(source\)<Ok>\.0\)<Ok>\.0\)\)?", mw) is not None
+            rep.check(okm, "R2", "with_file|inherited-mode", "options.mode <- file_mode(source file), unmodified", "the inherited mode is %s" % mw[:200], wfb.span)
+    fmb = f.one("builder::file_mode")
+    if True:
+        from common import ok_payload_terms
+        oks = sorted(set(ok_payload_terms(f, fmb)))
+        rep.check(oks == ["std::os::unix::fs::PermissionsExt::mode(std::fs::Metadata::permissions(std::fs::File::metadata(file)<Ok>.0))"], "R2", "file_mode|verbatim",
+                  "file_mode returns the st_mode of the open file, unmasked", "file_mode returns %s" % [o[:200] for o in oks], fmb.span)
+
     # ---- R1 no dropped input -----------------------------------------------------------------------------
     all_terms = " ".join(d for (_t, d, _c) in ents)
     for c in pd.calls():
@@ -213,7 +240,16 @@ def run(f, fixture, rep, cfg, tier):
     for field in ("provides", "requires", "recommends"):
         ws = [w.decl for (w, _i) in pd.mut_borrow_calls(1)] if False else []
     pushes = [c for c in pd.calls() if c.decl.endswith("Vec::<T, A>::push") and re.fullmatch(r"self\.(provides|requires|recommends)", render(tb.term(c.args[0])))]
-    rep.floor("R3", "automatic dependency appends", len(pushes), 8)
+    # `extend([..])` / `extend(iter)` / `append(..)` also add at the end
+    n_app = len(pushes)
+    for c in pd.calls():
+        if re.search(r"(Extend::extend|Vec::<T, A>::extend_from_slice|Vec::<T, A>::append)$", c.decl) and len(c.args) > 1 and re.fullmatch(r"self\.(provides|requires|recommends)", render(tb.term(c.args[0]))):
+            at_ = tb.term(c.args[1])
+            while at_[0] == "call" and at_[1].endswith("IntoIterator::into_iter") and at_[2]:
+                at_ = at_[2][0]
+            n_app += len(at_[2]) if at_[0] == "agg" and at_[1] == "array" else 1
+            pushes.append(c)
+    rep.floor("R3", "automatic dependency appends", n_app, 8)
     for c in pushes:
         rep.ok("R3", "automatic entry appended after the user's entries of %s" % render(tb.term(c.args[0])), c.loc())
 
